@@ -43,6 +43,9 @@ class SymBackend:
     def const(self, x):
         return x
 
+    def oracle_ctx(self):
+        return sx.no_abstract()
+
     def from_int_oracle(self, m):
         return self.O.from_int(m)
 
